@@ -68,7 +68,9 @@ class QuantumStateRepresentation(metaclass=abc.ABCMeta):
         for _ in range(repetitions):
             state = self.copy()
             measurements.append(state.measure(axes, prng))
-        return np.array(measurements, dtype=np.uint8)
+        digits = np.array(measurements, dtype=np.int64)
+        # 8 bits per digit unless a qudit has more levels than that.
+        return digits.astype(np.uint8) if digits.max(initial=0) < 256 else digits
 
     def kron(self, other: Self) -> Self:
         """Joins two state spaces together."""
